@@ -22,6 +22,12 @@ def sk(t):
 
 
 class Inhomogeneous(Exception):
+    def __init__(self, msg, forms=()):
+        Exception.__init__(self, msg)
+        self.forms = forms
+
+
+class _Unused(Exception):
     pass
 
 
@@ -41,7 +47,26 @@ def idx_atom(t):
     return None
 
 
+def _unchecked(t):
+    """k.checked_sub(c).Some.0 is k - c (on the path where it is Some)"""
+    if not isinstance(t, tuple) or not t:
+        return t
+    if t[0] == 'field' and t[2] == 'Some.0' and t[1][0] == 'call' and t[1][1].split('::')[-1] in ('checked_sub', 'checked_add') and len(t[1][2]) == 2:
+        op = 'SubWithOverflow' if t[1][1].endswith('checked_sub') else 'AddWithOverflow'
+        return ('field', ('bin', op, _unchecked(t[1][2][0]), _unchecked(t[1][2][1])), '0')
+    if t[0] in ('ref', 'deref'):
+        return (t[0], _unchecked(t[1]))
+    if t[0] == 'field':
+        return ('field', _unchecked(t[1]), t[2])
+    if t[0] == 'bin':
+        return ('bin', t[1], _unchecked(t[2]), _unchecked(t[3]))
+    if t[0] == 'cast':
+        return ('cast', t[1], _unchecked(t[2])) + tuple(t[3:])
+    return t
+
+
 def aff(t):
+    t = _unchecked(t)
     try:
         return affine(strip(t) if t[0] in ('ref', 'deref') else t, idx_atom)
     except NotAffine as e:
@@ -122,7 +147,7 @@ class Deg:
             if last in ('add', 'sub') and len(a) == 2:
                 d1, d2 = self.deg(a[0]), self.deg(a[1])
                 if d1 != d2:
-                    raise Inhomogeneous('%s joins degree %s with degree %s' % (last, fshow(d1), fshow(d2)))
+                    raise Inhomogeneous('%s joins degree %s with degree %s' % (last, fshow(d1), fshow(d2)), (d1, d2))
                 return d1
             if last == 'mul' and len(a) == 2:
                 return self.norm(fadd(self.deg(a[0]), self.deg(a[1])))
@@ -169,6 +194,10 @@ def run(facts, rep):
                 s = sk(e.term)
                 if s == 'Ge(arg2, 2)' and e.value == 0:
                     subst['a2'] = 1       # 0 < k < 2
+                elif s in ('Lt(arg2, 2)', 'Le(arg2, 1)') and e.value != 0:
+                    subst['a2'] = 1
+                elif re.match(r'discr\(checked_sub\(arg2, 2\)\)$', s) and e.value == 0:
+                    subst['a2'] = 1       # k.checked_sub(2) is None
             D = Deg(subst)
             for e in p.events:
                 checks = []
@@ -193,12 +222,18 @@ def run(facts, rep):
                         if kind == 'store':
                             want = D.place_degree(c, index)
                             if d != want:
-                                raise Inhomogeneous('value of degree %s stored into %s[%s] of degree %s' % (fshow(d), c, sk(index), fshow(want)))
+                                raise Inhomogeneous('value of degree %s stored into %s[%s] of degree %s' % (fshow(d), c, sk(index), fshow(want)), (d, want))
                         elif kind == 'quotient' and d != {}:
-                            raise Inhomogeneous('size-reduction quotient has degree %s, must be dimensionless' % fshow(d))
+                            raise Inhomogeneous('size-reduction quotient has degree %s, must be dimensionless' % fshow(d), (d,))
                         seen[key] = (True, fshow(d), line)
                     except Inhomogeneous as ex:
-                        seen[key] = (False, str(ex), line)
+                        # a mismatch counts only if every atom of the degrees is one the index reader knows (the step k, a
+                        # loop index, a literal): an opaque atom means the reader, not the formula, is out of its depth
+                        opaque = sorted({str(k_) for f_ in ex.forms for k_ in f_ if not (k_ == 1 or re.match(r'(a\d+|it:\d*|lv:\w+)$', str(k_)))})
+                        if opaque:
+                            seen[key] = (None, 'degree with an unread index atom %s: %s' % (opaque[:2], str(ex)[:120]), line)
+                        else:
+                            seen[key] = (False, str(ex), line)
                     except Unknown as ex:
                         seen[key] = (None, str(ex), line)
         for key, (ok, msg, line) in sorted(seen.items(), key=lambda kv: str(kv[0])):
